@@ -403,7 +403,7 @@ func vMin3(p, q, r int64) int64 {
 	return m
 }
 
-//vh:prop=C02 tiers=quick,thorough sigkeys=prog unwind=12 budget_s=1200 bounds="90 programs covering precedence and grouping, short-circuit operators returning operands, ternary and multi-arm conditions, if / else-if / else, while with break and continue (also nested, with break / continue before the inner loop), functions with early return and local scope, computed values reading later assignments, array and dict aliasing (results of + * and slicing are fresh arrays, also after pop/push), negative indices, slices and slice assignment, container equality, every built-in function and array / dict method (incl. sum / kh / kl over the full 64-bit range, conversions, error cases), ranges, string indexing, whitespace/newline/parenthesis variants, and an erroring statement; integer variables xx, yy, zz are 64-bit symbols; second evaluation on the same VM (after the first, including failed ones) must agree again"
+//vh:prop=C02 tiers=quick,thorough sigkeys=prog unwind=12 budget_s=1200 bounds="90 programs covering precedence and grouping, short-circuit operators returning operands, ternary and multi-arm conditions, if / else-if / else, while with break and continue (also nested, with break / continue before the inner loop), functions with early return and local scope, computed values reading later assignments, array and dict aliasing (results of + * and slicing are fresh arrays, also after pop/push), negative indices, slices and slice assignment, container equality, every built-in function and array / dict method (incl. sum / kh / kl over the full 64-bit range, conversions, error cases), ranges, string indexing, whitespace/newline/parenthesis variants, and an erroring statement; integer variables xx, yy, zz are 64-bit symbols; second evaluation on the same VM (after the first, including failed ones; through Parse + RunAfterParsed instead of Run) must agree again"
 func VH_C02_prog() {
 	k := vParam("prog", -1)
 	if k < 0 {
@@ -416,7 +416,13 @@ func VH_C02_prog() {
 		vm.Attrs.Store("xx", NewIntVal(IntType(p)))
 		vm.Attrs.Store("yy", NewIntVal(IntType(q)))
 		vm.Attrs.Store("zz", NewIntVal(IntType(r)))
-		err := vm.Run(pr.src)
+		// first through Run, then through the two-step API
+		var err error
+		if round == 0 {
+			err = vm.Run(pr.src)
+		} else if err = vm.Parse(pr.src); err == nil {
+			err = vm.RunAfterParsed()
+		}
 		want, ok := pr.ref(p, q, r)
 		if !ok {
 			vAssert(err != nil, "error-prescribed")
